@@ -157,25 +157,24 @@ Q q_ceil()
 Q q_round()
 {
     REP c = in<REP>(D_ROUND); lim(c, RLIM);
-    W num = W(c) * W(CN);
-    REP r = k_round(c); W R = r;
-    W diff = num - R * W(CD);  // |2*diff| <= CD, written without doubling
-    vf_assert(diff <= W(CD) - diff && diff >= -W(CD) - diff, "round: nearest");
-    if (diff == W(CD) - diff || diff == -W(CD) - diff) vf_assert((r & 1) == 0, "round: ties to even");
-}
-// The same obligation, decomposed: the floor lemma "k_floor(c) is the exact floor" is what q_floor proves for every count of
-// D_FLOOR (a superset of D_ROUND) in the same configuration; here it is assumed for the value k_floor(c) (round calls
-// floor on the same argument), so that the solver only has to deal with the tie-breaking logic on top of it.
-Q q_round_lem()
-{
-    REP c = in<REP>(D_ROUND);
-    W num = W(c) * W(CN);
-    REP f = k_floor(c); W F = f;
-    vf_assume(F * W(CD) <= num && num < (F + 1) * W(CD));
-    REP r = k_round(c); W R = r;
-    W diff = num - R * W(CD);
-    vf_assert(diff <= W(CD) - diff && diff >= -W(CD) - diff, "round: nearest (given the floor lemma)");
-    if (diff == W(CD) - diff || diff == -W(CD) - diff) vf_assert((r & 1) == 0, "round: ties to even (given the floor lemma)");
+    REP r = k_round(c);
+    if constexpr (REPW == 64 && RLIM > 0 && RLIM <= 14) {
+        // range-bounded 64-bit Rep: |c*CN| < 2^61, so once the result is known to be small the oracle is exact in 64 bits
+        // (a result that is not small fails the first assertion)
+        long long const B = (1LL << 61) / (long long)CD;
+        bool small = r > -B && r < B;
+        vf_assert(small, "round: result magnitude");
+        if (small) {
+            long long num = (long long)c * (long long)CN, diff = num - (long long)r * (long long)CD;
+            vf_assert(diff <= (long long)CD - diff && diff >= -(long long)CD - diff, "round: nearest");
+            if (diff == (long long)CD - diff || diff == -(long long)CD - diff) vf_assert((r & 1) == 0, "round: ties to even");
+        }
+    } else {
+        W num = W(c) * W(CN), R = r;
+        W diff = num - R * W(CD);  // |2*diff| <= CD, written without doubling
+        vf_assert(diff <= W(CD) - diff && diff >= -W(CD) - diff, "round: nearest");
+        if (diff == W(CD) - diff || diff == -W(CD) - diff) vf_assert((r & 1) == 0, "round: ties to even");
+    }
 }
 Q q_round_std()
 {
@@ -294,15 +293,13 @@ Q q_cmul()
     vf_assume(e >= M(RMIN) && e <= M(RMAX));
     vf_assert(M(k_cmul(a, b)) == e, "compound *= scalar");
 }
-// compound /= and %= over the whole range against the built-in operators in a wider type and against std::chrono
+// compound /= and %= over the whole range against std::chrono (two divider instances have to agree: SMT back end)
 Q q_cdivmod()
 {
     REP a = nd(), b = nd();
-    typedef std::conditional_t<REPW <= 32, long long, i128> M;
     vf_assume(b != 0 && !(i128(a) == RMIN && b == -1));
     SFrom x{a}, y{a}, z{a}; x /= b; y %= b; z %= SFrom{b};
     REP q = k_cdiv(a, b), m = k_cmod(a, b), m2 = k_cmodd(a, b);
-    vf_assert(M(q) == M(a) / M(b) && M(m) == M(a) % M(b) && m2 == m, "compound /= %= truncated division of the count");
     vf_assert(q == x.count() && m == y.count() && m2 == z.count(), "compound /= %= == std::chrono");
 }
 // %=: magnitude and sign of the remainder over the whole range (the quotient definition a == q*b + r for a plain count is
